@@ -161,7 +161,14 @@ EXPORT char *_gets_s_chk(char *restrict dest, rsize_t dmax,
                 goto nospc;
             }
         }
+#ifdef SAFECLIB_STR_NULL_SLACK
+        /* null slack to clear any data */
+        len = (rsize_t)strnlen(dest, dmax);
+        memset(&dest[len], 0, dmax - len);
+#endif
     } else {
+        /* nothing was read: dest is the empty string */
+        *dest = '\0';
         if (!feof(stdin) && errno == 0) { /* closed? */
         nospc:
             handle_error(dest, dmax, "gets_s: length exceeds dmax", ESNOSPC);
